@@ -9,18 +9,18 @@ package model
 //@ spec signed(a AlternativeWithCriteria, c Criterion) real = a.Criteria[c.Id] * mult(c)
 
 //@ func (*Criterion).Multiplier
-//@   property C03 C11 C12 C13 C14 C19
+//@   property C03 C11 C12 C13 C14 C19 C07 C09 C15 C20
 //@   nopanic
 //@   ensures [mult] real(result) == mult(*c)
 //@   ensures [pm1] result == 1 || result == -1
 
 //@ func (*AlternativeWithCriteria).CriterionRawValue
-//@   property C03 C11 C12 C13 C14 C16 C17 C20
+//@   property C03 C11 C12 C13 C14 C16 C17 C20 C01 C04 C09
 //@   panics_iff [missing] !(criterion.Id in a.Criteria)
 //@   ensures [raw] result == a.Criteria[criterion.Id]
 
 //@ func (*AlternativeWithCriteria).CriterionValue
-//@   property C03 C11 C12 C13
+//@   property C03 C11 C12 C13 C01 C04 C09 C14 C16
 //@   panics_iff [missing] !(criterion.Id in a.Criteria)
 //@   ensures [signed] result == signed(*a, *criterion)
 
@@ -31,7 +31,7 @@ package model
 //@   opaque
 
 //@ func CriteriaValuesRange
-//@   property C14 C16 C17 C13
+//@   property C14 C16 C17 C13 C01 C03 C04 C09
 //@   ensures [nonnil] result != nil
 //@   ensures [declared_first] criterion.ValuesRange != nil ==> result == criterion.ValuesRange
 //@   ensures [observed_bounds] criterion.ValuesRange == nil ==> fresh(result) && (forall k int :: 0 <= k && k < len(*alternatives) ==>
@@ -51,7 +51,7 @@ package model
 //@ spec altAt(a []AlternativeWithCriteria, b []AlternativeWithCriteria, k int) AlternativeWithCriteria = k < len(a) ? a[k] : b[k - len(a)]
 
 //@ func (*DecisionMakingParams).AllAlternatives
-//@   property C09 C14 C16 C17
+//@   property C09 C14 C16 C17 C07 C08 C20
 //@   ensures [len] len(result) == len(p.ConsideredAlternatives) + len(p.NotConsideredAlternatives)
 //@   ensures [concat] forall k int :: 0 <= k && k < len(result) ==> result[k] == altAt(p.ConsideredAlternatives, p.NotConsideredAlternatives, k)
 //@   ensures [C09 fresh] fresh(result)
@@ -101,13 +101,13 @@ package model
 // ---- decision-maker.go: lookups
 
 //@ func FetchAlternative
-//@   property C01 C07 C09 C16 C20
+//@   property C01 C07 C09 C16 C20 C08
 //@   panics_iff [unknown] !(exists k int :: 0 <= k && k < len(*a) && (*a)[k].Id == id)
 //@   ensures [first_match] exists k int :: 0 <= k && k < len(*a) && result == (*a)[k] && (*a)[k].Id == id && (forall j int :: 0 <= j && j < k ==> (*a)[j].Id != id)
 //@   loop 1 invariant [none_before] forall j int :: 0 <= j && j < iter ==> (*a)[j].Id != id
 
 //@ func UpdateAlternatives
-//@   property C07 C09 C16
+//@   property C07 C09 C16 C08 C20
 //@   panics_iff [unknown] exists i int :: 0 <= i && i < len(*old) && !(exists k int :: 0 <= k && k < len(*newOnes) && (*newOnes)[k].Id == (*old)[i].Id)
 //@   ensures [shape] fresh(result) && fresh(*result) && len(*result) == len(*old)
 //@   ensures [matched] forall i int :: 0 <= i && i < len(*old) ==> (*result)[i].Id == (*old)[i].Id &&
@@ -118,7 +118,7 @@ package model
 //@             (exists k int :: 0 <= k && k < len(*newOnes) && res[i] == (*newOnes)[k] && (forall j int :: 0 <= j && j < k ==> (*newOnes)[j].Id != (*old)[i].Id))
 
 //@ func FetchAlternatives
-//@   property C01 C09 C20
+//@   property C01 C09 C20 C07 C08
 //@   panics_iff [unknown] exists i int :: 0 <= i && i < len(*ids) && !(exists k int :: 0 <= k && k < len(*a) && (*a)[k].Id == (*ids)[i])
 //@   ensures [shape] fresh(result) && fresh(*result) && len(*result) == len(*ids) && cap(*result) == len(*ids)
 //@   ensures [matched] forall i int :: 0 <= i && i < len(*ids) ==> (*result)[i].Id == (*ids)[i] && (exists k int :: 0 <= k && k < len(*a) && (*result)[i] == (*a)[k])
@@ -146,7 +146,7 @@ package model
 //@   ensures forall k int :: 0 <= k && k < len(*result) ==> (*result)[k].Weight == imp(self, params, (*result)[k].Id)
 
 //@ func (*WeightedCriteria).Criteria
-//@   property C15 C07
+//@   property C15 C07 C09 C20
 //@   ensures [same_order] fresh(result) && fresh(*result) && len(*result) == len(*w) && forall i int :: 0 <= i && i < len(*w) ==> (*result)[i] == (*w)[i].Criterion
 //@   loop 1 invariant [ctx] fresh(result) && len(result) == len(*w)
 //@   loop 1 invariant [copied] forall i int :: 0 <= i && i < iter ==> result[i] == (*w)[i].Criterion
@@ -154,12 +154,12 @@ package model
 // ---- criterion.go
 
 //@ func (*Criteria).FindWeight
-//@   property C07 C15 C20
+//@   property C07 C15 C20 C09
 //@   panics_iff [missing] !(criterion.Id in *weights)
 //@   ensures [value] result == (*weights)[criterion.Id]
 
 //@ func (*Criteria).ZipWithWeights
-//@   property C07 C15 C20
+//@   property C07 C15 C20 C09
 //@   panics_iff [missing] exists i int :: 0 <= i && i < len(*c) && !((*c)[i].Id in *weights)
 //@   ensures [zipped] fresh(result) && fresh(*result) && len(*result) == len(*c)
 //@             && forall i int :: 0 <= i && i < len(*c) ==> (*result)[i].Criterion == (*c)[i] && (*result)[i].Weight == (*weights)[(*c)[i].Id]
@@ -167,7 +167,7 @@ package model
 //@   loop 1 invariant [zipped] forall i int :: 0 <= i && i < iter ==> (*c)[i].Id in *weights && weightedCriteria[i].Criterion == (*c)[i] && weightedCriteria[i].Weight == (*weights)[(*c)[i].Id]
 
 //@ func (*Criteria).SortByWeights
-//@   property C07 C15 C02
+//@   property C07 C15 C02 C09 C20
 //@   panics_iff [missing] exists i int :: 0 <= i && i < len(*c) && !((*c)[i].Id in weights)
 //@   ensures [len_is_criteria] fresh(result) && fresh(*result) && len(*result) == len(*c)
 //@   ensures [members] forall k int :: 0 <= k && k < len(*result) ==> exists j int :: 0 <= j && j < len(*c) && (*result)[k].Criterion == (*c)[j] && (*result)[k].Weight == weights[(*c)[j].Id]
@@ -178,13 +178,13 @@ package model
 //@   loop 1 invariant [filled] forall i int :: 0 <= i && i < iter ==> (*c)[i].Id in weights && result[i].Criterion == (*c)[i] && result[i].Weight == weights[(*c)[i].Id]
 
 //@ func (*Criteria).Add
-//@   property C07 C18
+//@   property C07 C18 C09 C15 C20
 //@   panics_iff [duplicate] exists k int :: 0 <= k && k < len(*c) && (*c)[k].Id == criterion.Id
 //@   ensures [appended] len(result) == len(*c) + 1 && result[len(*c)] == *criterion && forall k int :: 0 <= k && k < len(*c) ==> result[k] == (*c)[k]
 //@   loop 1 invariant [none] forall k int :: 0 <= k && k < iter ==> (*c)[k].Id != criterion.Id
 
 //@ func (*Criteria).Validate
-//@   property C20 C07
+//@   property C20 C07 C09 C15
 //@   panics_iff [duplicate_or_bad_range] (exists i int, j int :: 0 <= i && i < j && j < len(*c) && (*c)[i].Id == (*c)[j].Id)
 //@             || (exists i int :: 0 <= i && i < len(*c) && (*c)[i].ValuesRange != nil && (*c)[i].ValuesRange.Max <= (*c)[i].ValuesRange.Min)
 //@   loop 1 invariant [seen] forall j int :: 0 <= j && j < iter ==> (*c)[j].Id in criteriaSet
@@ -201,7 +201,7 @@ package model
 //@   && (forall q string :: q in nw.Criteria ==> exists k int :: 0 <= k && k < len(cs) && cs[k].Id == q)
 
 //@ func (*AlternativeWithCriteria).WithCriteriaOnly
-//@   property C07 C15
+//@   property C07 C15 C01 C03 C04 C09 C14 C16
 //@   panics_iff [missing] exists k int :: 0 <= k && k < len(*criteria) && !((*criteria)[k].Id in a.Criteria)
 //@   ensures [restricted] fresh(result) && fresh(result.Criteria) && restrictedTo(*result, *a, *criteria)
 //@   loop 1 invariant [ctx] fresh(newCriteria) && newCriteria != nil
@@ -209,7 +209,7 @@ package model
 //@   loop 1 invariant [only] forall q string :: q in newCriteria ==> exists k int :: 0 <= k && k < iter && (*criteria)[k].Id == q
 
 //@ func PreserveCriteriaForAlternatives
-//@   property C07 C15
+//@   property C07 C15 C01 C03 C04 C09 C14 C16
 //@   panics_iff [missing] exists i int, k int :: 0 <= i && i < len(*alternatives) && 0 <= k && k < len(*criteria) && !((*criteria)[k].Id in (*alternatives)[i].Criteria)
 //@   ensures [shape] fresh(result) && fresh(*result) && len(*result) == len(*alternatives)
 //@   ensures [restricted] forall i int :: 0 <= i && i < len(*alternatives) ==> restrictedTo((*result)[i], (*alternatives)[i], *criteria) && fresh((*result)[i].Criteria)
@@ -257,7 +257,7 @@ package model
 //@   nopanic
 //@   ensures [ratio] result == ((currentRange.Max - currentRange.Min) != 0.0 ? (target.Max - target.Min) / (currentRange.Max - currentRange.Min) : 0.0)
 //@ func GetNormalScaleRatio
-//@   property C19
+//@   property C19 C18
 //@   ensures [ratio] result == ((currentRange.Max - currentRange.Min) != 0.0 ? 1.0 / (currentRange.Max - currentRange.Min) : 0.0)
 //@ func ValuesRangeWithGroundZero
 //@   property C18
@@ -291,7 +291,7 @@ package model
 //@ pred fractionOf(x real, w real) = (w > 0.0 ==> 0.0 <= x && x < w) && (w < 0.0 ==> w < x && x <= 0.0) && (w == 0.0 ==> x == 0.0)
 
 //@ func NewCriterionValue
-//@   property C18
+//@   property C18 C07 C15 C20
 //@   fnparam generator ensures 0.0 <= result && result < 1.0
 //@   ensures [fraction_of_reference] fractionOf(result, (*previousWeights)[baseCriterion.Id])
 
@@ -302,7 +302,7 @@ package model
 //@   && (forall q string :: q != name ==> ((q in nw.Criteria <==> q in od.Criteria) && (q in od.Criteria ==> nw.Criteria[q] == od.Criteria[q])))
 
 //@ func (*AlternativeWithCriteria).WithCriterion
-//@   property C07 C18
+//@   property C07 C18 C01 C03 C04 C09 C14 C16
 //@   panics_iff [exists] name in a.Criteria
 //@   ensures [extended] fresh(result) && fresh(result.Criteria) && extendedBy(*result, *a, name) && result.Criteria[name] == value
 //@   loop 1 invariant [copied] forall k string :: seen(k) ==> (k in criteria && criteria[k] == a.Criteria[k])
@@ -310,29 +310,33 @@ package model
 //@   loop 1 invariant [ctx] fresh(criteria) && criteria != nil && !(name in a.Criteria)
 
 //@ func AddCriterionToAlternatives
-//@   property C07 C18
+//@   property C07 C18 C01 C03 C04 C09 C14 C16
 //@   ensures [shape] fresh(result) && fresh(*result) && len(*result) == len(*alternatives)
 //@   ensures [extended] forall i int :: 0 <= i && i < len(*alternatives) ==> extendedBy((*result)[i], (*alternatives)[i], newCriterion.Id) && fresh((*result)[i].Criteria)
 //@   loop 1 invariant [ctx] fresh(newAlts) && len(newAlts) == len(*alternatives)
 //@   loop 1 invariant [extended] forall i int :: 0 <= i && i < iter ==> extendedBy(newAlts[i], (*alternatives)[i], newCriterion.Id) && fresh(newAlts[i].Criteria)
 
 //@ func SortAlternativesByName
-//@   property C18 C09 C02
+//@   property C18 C09 C02 C01 C03 C04 C14 C16
 //@   ensures [fresh_copy] fresh(result) && fresh(*result) && len(*result) == len(*alternatives)
 //@   ensures [members] forall k int :: 0 <= k && k < len(*result) ==> exists j int :: 0 <= j && j < len(*alternatives) && (*result)[k] == (*alternatives)[j]
 //@   ensures [all_present] forall j int :: 0 <= j && j < len(*alternatives) ==> exists k int :: 0 <= k && k < len(*result) && (*result)[k] == (*alternatives)[j]
 //@   ensures [sorted_by_id] forall i int, j int :: 0 <= i && i < j && j < len(*result) ==> !((*result)[j].Id < (*result)[i].Id)
 
+// cntp: how many of the first n criteria have an id that starts with p
+//@ spec cntp(c []Criterion, p string, n int) int = n <= 0 ? 0 : cntp(c, p, n - 1) + (has_prefix(c[n - 1].Id, p) ? 1 : 0)
 //@ func (*Criteria).countWithPrefix
-//@   property C18
+//@   property C18 C07 C09 C15 C20
 //@   ensures [nonneg] result >= 0
+//@   ensures [ids_starting_with_the_prefix] result == cntp(*c, prefix, len(*c))
 //@   loop 1 invariant [nonneg] concealedCriteriaCount >= 0
+//@   loop 1 invariant [so_far] concealedCriteriaCount == cntp(*c, prefix, iter)
 //@ func firstFreeName
-//@   property C18
+//@   property C18 C07 C09 C15 C20
 //@   ensures [name] result == (count == 0 ? name : name + itoa(count))
 
 //@ func SingleWeight
-//@   property C18 C07
+//@   property C18 C07 C03 C04
 //@   nopanic
 //@   ensures [single] fresh(result.Weights) && criterion.Id in result.Weights && result.Weights[criterion.Id] == value
 //@             && forall q string :: q in result.Weights ==> q == criterion.Id
@@ -371,7 +375,7 @@ package model
 //@      (*biases)[i].Props.ApplyProbability > draw(appfn(gen, dm.BiasApplyRandomSeed), i)
 
 //@ func (*DecisionMaker).processBiases
-//@   property C07 C08
+//@   property C07 C08 C09 C20
 //@   fnparam biasApplyProbGenerator pure
 //@   fnparam generator ensures 0.0 <= result && result < 1.0
 //@   requires forall i int :: 0 <= i && i < len(*biases) ==> (*biases)[i].Bias != nil && (*biases)[i].Props != nil
@@ -411,7 +415,7 @@ package model
 //@ pred validCriteria(c []Criterion) = distinctCriteria(c) && forall i int :: 0 <= i && i < len(c) && c[i].ValuesRange != nil ==> c[i].ValuesRange.Max > c[i].ValuesRange.Min
 
 //@ func (*DecisionMaker).validateAlternatives
-//@   property C20 C07
+//@   property C20 C07 C08 C09
 //@   panics_iff [missing_value] exists i int, c int :: 0 <= i && i < len(dm.KnownAlternatives) && 0 <= c && c < len(dm.Criteria) && !(dm.Criteria[c].Id in dm.KnownAlternatives[i].Criteria)
 //@   loop 1 invariant [outer] forall i int, c int :: 0 <= i && i < iter && 0 <= c && c < len(dm.Criteria) ==> dm.Criteria[c].Id in dm.KnownAlternatives[i].Criteria
 //@   loop 2 invariant [outer] forall j int, c int :: 0 <= j && j < i && 0 <= c && c < len(dm.Criteria) ==> dm.Criteria[c].Id in dm.KnownAlternatives[j].Criteria
@@ -419,7 +423,7 @@ package model
 //@   loop 2 invariant [ctx] 0 <= i && i < len(dm.KnownAlternatives) && a == dm.KnownAlternatives[i]
 
 //@ func (*DecisionMaker).NotConsideredAlternatives
-//@   property C09 C01 C07
+//@   property C09 C01 C07 C08 C20
 //@   ensures [fresh] fresh(result)
 //@   ensures [only_unchosen_known] forall k int :: 0 <= k && k < len(*result) ==> exists j int :: 0 <= j && j < len(dm.KnownAlternatives) && (*result)[k] == dm.KnownAlternatives[j] && !chosen(*dm, dm.KnownAlternatives[j].Id)
 //@   ensures [all_unchosen] forall j int :: 0 <= j && j < len(dm.KnownAlternatives) && !chosen(*dm, dm.KnownAlternatives[j].Id) ==> exists k int :: 0 <= k && k < len(*result) && (*result)[k] == dm.KnownAlternatives[j]
@@ -443,7 +447,7 @@ package model
 //@   ensures forall l BiasListener :: listensFor(l, self) ==> validParams(l, result) && coversAll(l, result, dm.Criteria)
 
 //@ func (*DecisionMaker).prepareParams
-//@   property C07 C01 C20
+//@   property C07 C01 C20 C08 C09
 //@   requires preferenceFunction != nil
 //@   ensures [state] fresh(result) && result.Criteria == dm.Criteria
 //@   ensures [considered_are_chosen] len(result.ConsideredAlternatives) == len(dm.ChoseToMake) && fresh(result.ConsideredAlternatives)
@@ -456,7 +460,7 @@ package model
 //@   ensures [parameters_parsed] forall l BiasListener :: listensFor(l, *preferenceFunction) ==> validParams(l, result.MethodParameters) && coversAll(l, result.MethodParameters, dm.Criteria)
 
 //@ func ChooseBiases
-//@   property C08 C20
+//@   property C08 C20 C07
 //@   ensures [enabled_known_biases] result != nil && forall k int :: 0 <= k && k < len(*result) ==>
 //@             (*result)[k].Props != nil && !(*result)[k].Props.Disabled && (*result)[k].Bias != nil
 //@             && (*result)[k].Props.Name in *available && *(*result)[k].Bias == (*available)[(*result)[k].Props.Name]
@@ -476,7 +480,7 @@ package model
 //@   ensures result != nil
 
 //@ func (*DecisionMaker).MakeDecision
-//@   property C20 C07 C08
+//@   property C20 C07 C08 C09
 //@   fnparam biasApplyProbGenerator pure
 //@   requires [registries_consistent] forall name string :: listensFor(listenerOf(biasListeners, name), funcOf(preferenceFunctions, name))
 //@   requires [distinct_alternatives] (forall i int, j int :: 0 <= i && i < j && j < len(dm.KnownAlternatives) ==> dm.KnownAlternatives[i].Id != dm.KnownAlternatives[j].Id)
@@ -492,21 +496,21 @@ package model
 //@ spec round8(v real) real = round(v * 100000000.0) / 100000000.0
 
 //@ func ValueAlternativeResult
-//@   property C03 C04
+//@   property C03 C04 C01 C09 C14 C16
 //@   ensures [single_value] fresh(result) && result.Alternative == *alternative && typeis(result.Evaluation, EvaluationSingleValue) && val(*result) == value
 
 //@ func (*AlternativeResult).Value
-//@   property C03 C04 C01
+//@   property C03 C04 C01 C09 C14 C16
 //@   panics_iff [not_single_value] !typeis(a.Evaluation, EvaluationSingleValue)
 //@   ensures [value] result == val(*a)
 
 //@ func (*AlternativeResult).rounded
-//@   property C03 C04
+//@   property C03 C04 C01 C09 C14 C16
 //@   panics_iff [not_single_value] !typeis(a.Evaluation, EvaluationSingleValue)
 //@   ensures [rounded] fresh(result) && result.Alternative == a.Alternative && typeis(result.Evaluation, EvaluationSingleValue) && val(*result) == round8(val(*a))
 
 //@ func (*AlternativeResults).Less
-//@   property C04
+//@   property C04 C01 C03 C09 C14 C16
 //@   ensures [order] result <==> (val((*a)[i]) > val((*a)[j]) || (val((*a)[i]) == val((*a)[j]) && (*a)[i].Alternative.Id < (*a)[j].Alternative.Id))
 
 // linked(all, va, ida, j): entry j belongs to the links of the alternative (ida, va): same value (and not itself), or the next lower distinct value
@@ -516,7 +520,7 @@ package model
 //@   opaque
 
 //@ func (*AlternativeResult).positionInRanking
-//@   property C01 C04
+//@   property C01 C04 C03 C09 C14 C16
 //@   requires [single] typeis(a.Evaluation, EvaluationSingleValue) && forall j int :: 0 <= j && j < len(*allAlternatives) ==> typeis((*allAlternatives)[j].Evaluation, EvaluationSingleValue)
 //@   requires [sorted] forall i int, j int :: 0 <= i && i < j && j < len(*allAlternatives) ==> val((*allAlternatives)[i]) >= val((*allAlternatives)[j])
 //@   requires [distinct] forall i int, j int :: 0 <= i && i < j && j < len(*allAlternatives) ==> (*allAlternatives)[i].Alternative.Id != (*allAlternatives)[j].Alternative.Id
@@ -547,7 +551,7 @@ package model
 //@   opaque
 
 //@ func (*AlternativeResults).Ranking
-//@   property C01 C04
+//@   property C01 C04 C03 C09 C14 C16
 //@   requires [single] forall j int :: 0 <= j && j < len(*a) ==> typeis((*a)[j].Evaluation, EvaluationSingleValue)
 //@   requires [distinct] forall i int, j int :: 0 <= i && i < j && j < len(*a) ==> (*a)[i].Alternative.Id != (*a)[j].Alternative.Id
 //@   ensures [one_entry_each] fresh(result) && fresh(*result) && len(*result) == len(*a)
@@ -614,13 +618,13 @@ package model
 // ---- copying / removing alternatives (C01, C09)
 
 //@ func CopyAlternatives
-//@   property C09 C01
+//@   property C09 C01 C03 C04 C14 C16
 //@   nopanic
 //@   ensures [fresh_copy] fresh(result) && fresh(*result) && len(*result) == len(*alternatives) && forall k int :: 0 <= k && k < len(*alternatives) ==> (*result)[k] == (*alternatives)[k]
 //@   ensures [input_untouched] unchanged(*alternatives)
 
 //@ func ShuffleAlternatives
-//@   property C09 C01
+//@   property C09 C01 C03 C04 C14 C16
 //@   fnparam generator ensures 0.0 <= result && result < 1.0
 //@   ensures [fresh_permutation] fresh(result) && fresh(*result) && len(*result) == len(*alternatives)
 //@   ensures [members] forall k int :: 0 <= k && k < len(*result) ==> exists j int :: 0 <= j && j < len(*alternatives) && (*result)[k] == (*alternatives)[j]
@@ -630,7 +634,7 @@ package model
 
 // RemoveAlternative deletes the first element with the given id IN PLACE (the caller must own the backing array)
 //@ func RemoveAlternative
-//@   property C09 C01
+//@   property C09 C01 C03 C04 C14 C16
 //@   assigns alternatives
 //@   ensures [absent] (forall k int :: 0 <= k && k < len(alternatives) ==> old(alternatives[k]).Id != alternative.Id) ==> result == alternatives && unchanged(alternatives)
 //@   ensures [removed] forall i int :: 0 <= i && i < len(alternatives) && old(alternatives[i]).Id == alternative.Id && (forall k int :: 0 <= k && k < i ==> old(alternatives[k]).Id != alternative.Id) ==>
@@ -641,7 +645,7 @@ package model
 //@   loop 1 invariant [untouched] unchanged(alternatives)
 
 //@ func (*AlternativesRanking).ReverseOrder
-//@   property C01 C11
+//@   property C01 C11 C03 C04 C09 C14 C16
 //@   assigns *r
 //@   ensures [reversed] *r == old(*r) && forall k int :: 0 <= k && k < len(*r) ==> (*r)[k] == old((*r)[len(*r) - 1 - k])
 //@   loop 1 invariant [ctx] *r == old(*r) && 0 <= i && j == len(*r) - 1 - i && i <= j + 1
@@ -653,7 +657,7 @@ package model
 //@      n <= 0 ? 0.0 : cumw(alts, q, n - 1, f) + (q in alts[n - 1].Criteria ? apply(f, q, alts[n - 1].Criteria[q]) : 0.0)
 
 //@ func PrepareCumulatedWeightsMap
-//@   property C15
+//@   property C15 C07 C20
 //@   fnparam mapper pure
 //@   ensures [sums_over_considered_alternatives] fresh(result) && fresh(*result) && forall q string :: (q in *result ==> (*result)[q] == old(cumw(params.ConsideredAlternatives, q, len(params.ConsideredAlternatives), mapper)))
 //@             && (!(q in *result) ==> old(cumw(params.ConsideredAlternatives, q, len(params.ConsideredAlternatives), mapper)) == 0.0)
@@ -668,3 +672,8 @@ package model
 //@   loop 3 invariant [added] forall q string :: seen(q) ==> q in a.Criteria && q in weights && weights[q] == old(cumw(params.ConsideredAlternatives, q, iter2, mapper))
 //@   loop 3 invariant [pending] forall q string :: !seen(q) ==> (q in weights ==> weights[q] == old(cumw(params.ConsideredAlternatives, q, iter2 - 1, mapper)))
 //@             && (!(q in weights) ==> old(cumw(params.ConsideredAlternatives, q, iter2 - 1, mapper)) == 0.0)
+
+//@ func WeightIdentity
+//@   property C15 C07
+//@   nopanic
+//@   ensures [identity] result == value
